@@ -207,6 +207,67 @@ def doc_graph(e32, e31, e30, e21, e20, e10):
     return add_messages(d, params="S3")
 
 
+OVR = [
+    None,
+    {"name": "kind", "type": {"kind": "or", "items": [{"kind": "base", "name": "integer"}, {"kind": "base", "name": "null"}]}},
+    {"name": "kind", "type": {"kind": "base", "name": "integer"}, "optional": True},
+    {"name": "kind", "type": {"kind": "base", "name": "string"}},
+]
+
+
+def doc_override(e10, e21, r1, r2, tail):
+    """a single chain S0 <- S1 <- S2 (each edge extends or mixin) where S1 and / or S2 re-declare S0's required
+    `kind: integer` as `integer | null`, as optional, or with another type: the nearest declaration wins, in S2 too;
+    `tail` puts a required property after `kind` in S0 (a required attribute may not follow a defaulted one)"""
+    d = base_doc()
+    p0 = [{"name": "kind", "type": {"kind": "base", "name": "integer"}}]
+    if tail:
+        p0.append({"name": "tail", "type": {"kind": "base", "name": "string"}})
+    d["structures"].append({"name": "S0", "properties": p0})
+    s1 = {"name": "S1", "properties": [{"name": "mid", "type": {"kind": "base", "name": "boolean"}, "optional": True}], EDGE[1 + e10]: [{"kind": "reference", "name": "S0"}]}
+    if OVR[r1]:
+        s1["properties"].insert(0, json.loads(json.dumps(OVR[r1])))
+    s2 = {"name": "S2", "properties": [{"name": "leaf", "type": {"kind": "base", "name": "string"}}], EDGE[1 + e21]: [{"kind": "reference", "name": "S1"}]}
+    if OVR[r2]:
+        s2["properties"].append(json.loads(json.dumps(OVR[r2])))
+    d["structures"] += [s1, s2]
+    return add_messages(d, params="S2")
+
+
+TEXTS = [
+    "plain text",
+    "first line\nsecond line",
+    "first line\r\nsecond line",
+    "first line\rsecond line",
+    'say """hello"""',
+    "it's a 'quoted' \"thing\"",
+    "back\\slash \\d and trailing\\",
+    "*/ end of comment /* and // more",
+    "line separators \u2028 and \x0b and \x0c inside",
+    "@since 3.18.0\n@proposed",
+    "<summary>&amp; {braces} {@link Other}</summary>",
+    "    indented\n\n\n  blank lines  ",
+    "3.17.0 - proposed\n    x = 1",
+]
+TEXT_FIELDS = ["documentation", "since", "deprecated", "sinceTags"]
+
+
+def doc_text(where, field, ti):
+    """free text (documentation / since / deprecated / sinceTags) with line breaks of every flavour, quotes, comment
+    terminators and backslashes on a structure, property, enumeration, enumeration value, request, notification or
+    type alias: text must never change what is generated besides comments"""
+    d = base_doc()
+    prop = {"name": "label", "type": {"kind": "reference", "name": "Kind"}, "optional": True}
+    s = {"name": "P", "properties": [prop, {"name": "id", "type": {"kind": "base", "name": "integer"}}]}
+    d["structures"].append(s)
+    d["typeAliases"].append({"name": "PAlias", "type": {"kind": "or", "items": [{"kind": "reference", "name": "P"}, {"kind": "base", "name": "string"}]}})
+    add_messages(d)
+    target = [s, prop, d["enumerations"][0], d["enumerations"][0]["values"][1], d["requests"][0], d["notifications"][0], d["typeAliases"][-1]][where]
+    f = TEXT_FIELDS[field]
+    target[f] = [TEXTS[ti], "3.17.0"] if f == "sinceTags" else TEXTS[ti]
+    return d
+
+
 def doc_enum(base, custom, pv, use):
     d = base_doc()
     vals = [{"name": "A", "value": "a" if base == 0 else 1}, {"name": "B", "value": "b" if base == 0 else 2}]
@@ -567,7 +628,7 @@ def evaluate(plugin, doc, prop=None):
     return (["%s: %s of %s: expected %r, emitted %r" % (plugin, k[-1], ".".join(str(x) for x in k[:-1] if x != ""), w, g) for k, w, g in new[:8]], known)
 
 
-FAMILY_RANGES = {"types2": [NSHAPE, NSHAPE, 3, 3, len(NAMES), len(NAMES) - 1], "graph5": [3] * 7 + [1], "types": [NSHAPE, len(BASES), 3, 3, len(NAMES)], "marks": [2] * 8, "messages": [2, 2, 3, 3, 2, 4], "graph": [3] * 6, "enum": [3, 3, 2, 3], "literal": [5, 2, 2, len(NAMES), 3], "alias": [7, 4, 3]}
+FAMILY_RANGES = {"text": [7, len(TEXT_FIELDS), len(TEXTS)], "override": [2, 2, 4, 4, 2], "types2": [NSHAPE, NSHAPE, 3, 3, len(NAMES), len(NAMES) - 1], "graph5": [3] * 7 + [1], "types": [NSHAPE, len(BASES), 3, 3, len(NAMES)], "marks": [2] * 8, "messages": [2, 2, 3, 3, 2, 4], "graph": [3] * 6, "enum": [3, 3, 2, 3], "literal": [5, 2, 2, len(NAMES), 3], "alias": [7, 4, 3]}
 
 
 def _concretize(f, n):
@@ -581,7 +642,7 @@ def _concretize(f, n):
     raise AssertionError("flag outside its range")
 
 
-DOCS = {"types2": doc_types2, "graph5": doc_graph5, "alias": doc_aliasfam, "types": doc_types, "marks": doc_marks, "messages": doc_messages, "graph": doc_graph, "enum": doc_enum, "literal": doc_literal}
+DOCS = {"text": doc_text, "override": doc_override, "types2": doc_types2, "graph5": doc_graph5, "alias": doc_aliasfam, "types": doc_types, "marks": doc_marks, "messages": doc_messages, "graph": doc_graph, "enum": doc_enum, "literal": doc_literal}
 
 
 def tiny_ok(family, plugin, *flags):
@@ -680,6 +741,10 @@ def tiny_lemmas(plugins, tier):
         for inh in range(3):
             add(plugin, "literal", "i%d" % inh, ["where", "o1", "o2", "name_idx"], [5, 2, 2, len(NAMES)], "where, o1, o2, name_idx, %d" % inh, {"inh": inh})
         add(plugin, "alias", "all", ["kind", "extra", "used"], [7, 4, 3], "kind, extra, used", {})
+        for field in range(len(TEXT_FIELDS)):
+            add(plugin, "text", "f%d" % field, ["where", "ti"], [7, len(TEXTS)], "where, %d, ti" % field, {"field": field})
+        for e10 in range(2):
+            add(plugin, "override", "e%d" % e10, ["e21", "r1", "r2", "tail"], [2, 4, 4, 2], "%d, e21, r1, r2, tail" % e10, {"e10": e10})
         if tier == "thorough":
             for s1 in range(NSHAPE):
                 add(plugin, "types2", "s%d" % s1, ["sel2", "opt1", "opt2"], [NSHAPE, 3, 3], "%d, sel2, opt1, opt2, 0, 0" % s1, {"sel1": s1, "name1": 0, "name2": 0})
